@@ -270,6 +270,26 @@ class Inliner:
             call, kind, target = st.value, "assign", st.targets[0]
         elif isinstance(st, ast.Return) and isinstance(st.value, ast.Call):
             call, kind = st.value, "return"
+        if call is None and isinstance(st, (ast.Assign, ast.Return)) and st.value is not None:
+            # `t = h(…).T` / `return h(…)[0]`: the call is the FIRST thing the statement evaluates (head of an attribute / constant-subscript chain), so it can be
+            # hoisted into a temporary without changing the order of evaluation:  tmp = h(…);  t = tmp.T
+            chain, head = [], st.value
+            while isinstance(head, (ast.Attribute, ast.Subscript)) and (isinstance(head, ast.Attribute) or isinstance(head.slice, ast.Constant)):
+                chain.append(head)
+                head = head.value
+            if chain and isinstance(head, ast.Call) and self._resolve(head, cls, fn, fn_qual) is not None and (not isinstance(st, ast.Assign) or len(st.targets) == 1):
+                self.count += 1
+                tmp = f"hoisted{SUFFIX}{self.count}"
+                first = ast.Assign(targets=[ast.Name(id=tmp, ctx=ast.Store())], value=head)
+                ast.copy_location(first, st)
+                chain[-1].value = ast.Name(id=tmp, ctx=ast.Load())
+                inner = self._inline_stmt(first, cls, fn, fn_qual)
+                if inner is None:
+                    chain[-1].value = head          # undo
+                    return None
+                for n_ in inner + [st]:
+                    ast.fix_missing_locations(n_)
+                return inner + [st]
         if call is None:
             return None
         res = self._resolve(call, cls, fn, fn_qual)
